@@ -129,6 +129,15 @@ func c01probes() []c01probe {
 			Payload: rt.Obj(rt.Fld("u", un(), false), rt.Fld("q", str, false)),
 			HTTP:    &m.HTTPEndpoint{Routes: route("POST", "/m"), Query: []m.Mapping{{Attr: "q"}}, Body: &m.Body{Mode: "fields", Fields: []string{"u"}}}}))
 	}
+	{
+		dv := value.Str("x")
+		a := m.Prim(m.String)
+		a.Default = &dv
+		add("C01-result-type-response-cookie-with-default", pdesign(
+			[]*m.UserType{{Name: "Tree", Var: "v1", Result: true, Identifier: "application/vnd.tree", Attr: rt.Obj(rt.Fld("items", a, false), rt.Fld("other", str, false)),
+				Views: []*m.View{{Name: "default", Fields: views("items", "other")}}}}, nil,
+			&m.Method{Name: "m", Result: m.UserRef("Tree"), HTTP: &m.HTTPEndpoint{Routes: route("GET", "/m"), Responses: []*m.Response{{Status: 200, Cookies: []m.Mapping{{Attr: "items"}}}}}}))
+	}
 	// gRPC
 	{
 		health := &m.Service{Name: "health", HasHTTP: true, Methods: []*m.Method{{Name: "ping", HTTP: &m.HTTPEndpoint{Routes: route("GET", "/ping")}}}}
